@@ -904,7 +904,7 @@ pub fn run(ctx: &Ctx) -> ! {
     let per_message = ctx.tier.pick(24u64, 120);
     let spec = RunSpec {
         shards: 16,
-        cases_per_shard: ctx.tier.pick(40, 600),
+        cases_per_shard: ctx.tier.pick(40, 250),
         cfg_len: CFG_LEN,
         min_ops: 4,
         max_ops: ctx.tier.pick(24, 50),
